@@ -41,7 +41,7 @@ func init() {
 			"A history is non-trivial when it contains at least one pair of overlapping operations on the same mailbox; distinct by (config, multiset of " +
 			"overlapping operation-kind pairs).",
 		Assumptions: []string{
-			"seen flags are judged on single-message reads and at the final quiescent point, not inside list results (a list's seen flags are read lazily from shared message objects)",
+			"seen flags are judged on reads of one message by id (always placeable: the flag only goes from unseen to seen while the message exists) and at the final quiescent point, not inside list or 'latest' results: the memory store returns live message objects whose flag is read after the lookup",
 			"evictions by the global size enforcer are modelled as separate 'remove if present' operations spanning [call of the add that created the id, observation of its deleted event]; whether the right message was evicted is C08's question",
 			"the race detector only reports races that occur in the executions produced",
 			"file-store histories run one store at a time per child process",
@@ -143,8 +143,10 @@ func modelFor(cap int) porcupine.Model {
 				if len(s.ids) == 0 {
 					return !out.Found, s
 				}
+				// Identity only: the seen flag of the returned (live) message object is read after
+				// the lookup, when it may no longer be the latest (see Assumptions).
 				last := s.ids[len(s.ids)-1]
-				return out.Found && out.ID == last && out.Seen == s.seen[last], s
+				return out.Found && out.ID == last, s
 			case "list":
 				if len(out.IDs) != len(s.ids) {
 					return false, s
@@ -744,7 +746,7 @@ func judge(c *fw.Ctx, cf cfg, rec *recorder, desc string, total int64) {
 	if pairs > 0 {
 		c.NonTrivial(cf.name + "|" + sig)
 	}
-	res, info := porcupine.CheckOperationsVerbose(modelFor(cf.cap), ops, 10*time.Second*time.Duration(c.Slow))
+	res, info := porcupine.CheckOperationsVerbose(modelFor(cf.cap), ops, time.Duration(c.N(10, 40))*time.Second*time.Duration(c.Slow))
 	switch res {
 	case porcupine.Ok:
 		c.Count("porcupine_ok", 1)
